@@ -1008,6 +1008,11 @@ func ruleGlobals(c *Ctx) {
 									escapes = append(escapes, "address passed to "+calleeLabel(com)+" at "+b.posOf(i))
 								}
 							case *ssa.DebugRef:
+							case *ssa.Return:
+								// handed out by an unexported function all of whose callers only read through it
+								if why := a.handedOutReadOnly(fn); why != "" {
+									escapes = append(escapes, "address returned by "+fname(fn)+" at "+b.posOf(i)+": "+why)
+								}
 							default:
 								escapes = append(escapes, fmt.Sprintf("address used by %T at %s", i, b.posOf(i)))
 							}
@@ -1623,3 +1628,77 @@ func isSliceOrMap(t types.Type) bool {
 
 // isConstLenZeroCap: placeholder for globals known to have no spare capacity (none today).
 func isConstLenZeroCap(b *Body, g *ssa.Global) bool { return false }
+
+// handedOutReadOnly: fn is an unexported function that is only ever called directly, and what
+// every call yields is used for reading alone (element or field loads, possibly through phis).
+// Returns "" when that holds, else what stands against it.
+func (a *effAn) handedOutReadOnly(fn *ssa.Function) string {
+	if fn.Parent() != nil || token.IsExported(fn.Name()) || fn.Signature.Recv() != nil {
+		return "the function is exported, a method or a closure: its callers are not all known"
+	}
+	var readOnly func(v ssa.Value, depth int) string
+	readOnly = func(v ssa.Value, depth int) string {
+		if depth > 4 {
+			return "followed too far"
+		}
+		for _, r := range *v.Referrers() {
+			switch x := r.(type) {
+			case *ssa.DebugRef:
+			case *ssa.UnOp:
+				if x.Op != token.MUL {
+					return "used by an operator at " + a.b.posOf(x)
+				}
+			case *ssa.IndexAddr, *ssa.FieldAddr:
+				for _, r2 := range *x.(ssa.Value).Referrers() {
+					switch y := r2.(type) {
+					case *ssa.DebugRef:
+					case *ssa.UnOp:
+						if y.Op != token.MUL {
+							return "element address used by an operator at " + a.b.posOf(y)
+						}
+					default:
+						return "element address used by something other than a load at " + a.b.posOf(r2)
+					}
+				}
+			case *ssa.Phi:
+				if why := readOnly(x, depth+1); why != "" {
+					return why
+				}
+			default:
+				return fmt.Sprintf("the pointer is used by %T at %s", r, a.b.posOf(r))
+			}
+		}
+		return ""
+	}
+	sites := 0
+	for _, h := range a.fns {
+		bad := ""
+		allInstrs(h, func(j ssa.Instruction) {
+			for _, op := range j.Operands(nil) {
+				if *op != ssa.Value(fn) {
+					continue
+				}
+				cj, isCall := j.(*ssa.Call)
+				if !isCall || cj.Call.Value != ssa.Value(fn) {
+					bad = "the function is used as a value at " + a.b.posOf(j)
+					return
+				}
+				sites++
+				if _, isTuple := cj.Type().(*types.Tuple); isTuple {
+					bad = "several results"
+					return
+				}
+				if why := readOnly(cj, 0); why != "" {
+					bad = why
+				}
+			}
+		})
+		if bad != "" {
+			return bad
+		}
+	}
+	if sites == 0 {
+		return "nothing calls the function"
+	}
+	return ""
+}
